@@ -6,7 +6,7 @@ import ast
 
 from rules.write_effect import top_heads
 from sa.loader import (
-    AnalysisError, FuncDef, Module, Repo, call_name, enclosing_function, last_attr, parent, qualname_of,
+    AnalysisError, FuncDef, Module, Repo, ancestors, call_name, enclosing_function, last_attr, parent, qualname_of,
     unparse, walk_body,
 )  # fmt: skip
 from sa.mtypes import MTypes
@@ -1233,6 +1233,31 @@ def root_names_agree(check: Check, repo: Repo, rule: str = "ROOT-NAMES-AGREE") -
                         bnames.add(p_.value.value)
     check.ob(rule, fn, "the same three names on both sides", names == bnames and len(names) == 3,
              f"{sorted(names)}" if names == bnames else f"printer {sorted(names)} vs builder {sorted(bnames)}")
+    # when the convention applies: exactly when the document has no schema *definition* (extensions of the
+    # schema - `extend schema @dir` - do not define the roots): the stores of the conventional roots lie under
+    # tests of the definition node alone
+    stores = [s for s in walk_body(b) if isinstance(s, ast.Assign) and any(
+        isinstance(t, ast.Subscript) and isinstance(t.slice, ast.Constant) and t.slice.value in ("query", "mutation", "subscription") for t in s.targets)]
+    for s in stores:
+        keys: set[str] = set()
+        for a in ancestors(s):
+            if isinstance(a, (ast.If, ast.While)):
+                for x in ast.walk(a.test):
+                    if isinstance(x, ast.Subscript) and isinstance(x.slice, ast.Constant) and isinstance(x.slice.value, str) and "kwargs" in unparse(x.value):
+                        keys.add(x.slice.value)
+                for x in ast.walk(a.test):  # a local holding one of the entries
+                    if isinstance(x, ast.Name):
+                        for d in walk_body(b):
+                            if isinstance(d, ast.Assign) and any(isinstance(t, ast.Name) and t.id == x.id for t in d.targets):
+                                for y in ast.walk(d.value):
+                                    if isinstance(y, ast.Subscript) and isinstance(y.slice, ast.Constant) and isinstance(y.slice.value, str) and "kwargs" in unparse(y.value):
+                                        keys.add(y.slice.value)
+        extra = keys - {"ast_node"}
+        ok = "ast_node" in keys and not extra
+        check.ob(rule, s, f"build_ast_schema: `{unparse(s.targets[0])}` by convention", ok,
+                 "applies exactly when there is no schema definition" if ok else
+                 (f"the convention also depends on {sorted(extra)}: a document that only *extends* the schema loses its conventional roots"
+                  if extra else "not guarded by a test of the schema definition node"))
 
 
 CLIENT_BUILDERS = {
